@@ -157,7 +157,10 @@ def run(ctx):
             z = prev_z if (prev_z is not None and r.random() < 0.4) else r.choice([0.0, 0.5, 1.0, 3.0, 10.0])
             prev_z = z
             rc_direct = float((cosmo.critical_density(z) / cosmo.h ** 2).to(u.Msun / u.Mpc ** 3).value)
-            for cname, params in (("SOMean", {"overdensity": r.choice([200, 178.0, 500, 1600.5])}), ("SOCritical", {"overdensity": r.choice([200, 500, 2500.0])}),
+            # thresholds that are not whole numbers come up on every other case (18 pi^2, a published 337.5, ...)
+            so_mean_D = r.choice([200, 178.0, 500, 1600.5]) if rep % 2 else r.choice([177.652879, 337.5, 1600.5, 200.9])
+            so_crit_D = r.choice([200, 500, 2500.0]) if rep % 2 else r.choice([101.1, 177.652879, 500.4])
+            for cname, params in (("SOMean", {"overdensity": so_mean_D}), ("SOCritical", {"overdensity": so_crit_D}),
                                   ("SOVirial", {}), ("FOF", {"linking_length": r.choice([0.2, 0.168, 0.25])})):
                 o = getattr(md, cname)(**params)
                 m = 10 ** np.array([r.uniform(8, 16) for _ in range(4)])
